@@ -359,7 +359,7 @@ CHECKS["C21"] = dict(
     note="Assurance for the solver on the shipped formalizations is per explored output (translation-validation style): the claim over ALL seeds "
     "and cost settings is explored, not proved. The declarative rules in the theorem statements define 'valid' (an empty link name of a TAR "
     "symlink is allowed because the shipped constraint allows it). The reST clause 'docutils renders without errors' cannot be expressed by "
-    "a Lean model: docutils itself (importable in this sandbox) is run on every generated document as an additional, labelled EXTERNAL oracle. "
+    "a Lean model: docutils itself (importable in this sandbox) is run on every generated document as an additional, labelled EXTERNAL oracle (messages of level ERROR / SEVERE are violations, WARNINGs are recorded only). "
     "Known finding: the shipped reST numbering constraint is vacuous (consecutive() never holds for two enumeration items because of the "
     "line-feed leaf between them), so non-consecutively numbered lists are generated.",
     technique="Lean 4 theorems (each format checker = its declarative rule, sound and complete) + certification of every input the real solver generates from the shipped formalizations",
